@@ -9,6 +9,8 @@ import (
 
 	yae "github.com/goghcrow/yae"
 	"github.com/goghcrow/yae/simrt"
+	"github.com/goghcrow/yae/types"
+	"github.com/goghcrow/yae/val"
 )
 
 // ---------------------------------------------------------------------------
@@ -25,6 +27,7 @@ type Op struct {
 	CS    bool        `json:"cs,omitempty"`   // C refers to a shared (pre-compiled) callable
 	Env   string      `json:"env,omitempty"`  // invoke: environment maker
 	EnvSh bool        `json:"env_sh,omitempty"` // invoke: use the scenario's shared read-only host value
+	N     int         `json:"n,omitempty"`      // register: tag(x) = x + N is registered on the task's own engine E
 }
 
 type PreCompile struct {
@@ -174,6 +177,18 @@ func runScript(ops []Op, ps *preState, rec *recorder, region bool) []string {
 					dbg = "|dbg:" + dbg
 				}
 				return "val:" + render(v) + callsSuffix(rec) + dbg
+			case "register":
+				// a function registered on the task's OWN engine (possibly after that engine's
+				// first compilation): other engines must neither see it nor be disturbed by it
+				e := engines[op.E]
+				if e == nil {
+					return "skip"
+				}
+				add := float64(op.N)
+				e.RegisterFun(val.Fun(types.Fun("tag", []*types.Type{types.Num}, types.Num), func(args ...*val.Val) *val.Val {
+					return val.Num(args[0].Num().V + add)
+				}))
+				return "ok"
 			case "eval":
 				v, err := yae.Eval(op.Prog.Src, envMakers[op.Prog.Env]())
 				if err != nil {
@@ -636,9 +651,47 @@ func genLazyScenario(r *rng) *Scenario {
 	return sc
 }
 
+// genRegisterScenario: every task owns an engine, compiles something on it (the engine's
+// first compilation is over), then registers ITS OWN function `tag` on it and uses it; some
+// tasks never register and must get a compile error for `tag`. Registrations on one engine
+// are nobody else's business.
+func genRegisterScenario(r *rng, cold bool) *Scenario {
+	sc := &Scenario{ColdFirst: cold || r.chance(0.5)}
+	k := 2 + r.intn(3)
+	for t := 0; t < k; t++ {
+		var ops []Op
+		spec := EngineSpec{backends[r.intn(4)], r.chance(0.3)}
+		ops = append(ops, Op{K: "engine", Spec: &spec})
+		if r.chance(0.8) {
+			p := pickProg(r, spec.UserFuns)
+			ops = append(ops, Op{K: "compile", E: 0, Prog: &p})
+		}
+		if r.chance(0.7) {
+			ops = append(ops, Op{K: "register", E: 0, N: 1000 * (t + 1)})
+		}
+		n := 1 + r.intn(3)
+		for i := 0; i < n; i++ {
+			p := Prog{Src: r.pick([]string{"tag(0) + n", "tag(n) * 2", "[tag(1), tag(2)]", "if(b, tag(x), tag(n))"}), Env: []string{"map", "struct"}[r.intn(2)]}
+			ops = append(ops, Op{K: "compile", E: 0, Prog: &p})
+			ops = append(ops, Op{K: "invoke", C: len(ops) - 1, Env: p.Env})
+			if r.chance(0.3) {
+				q := pickProg(r, spec.UserFuns)
+				ops = append(ops, Op{K: "compile", E: 0, Prog: &q})
+				ops = append(ops, Op{K: "invoke", C: len(ops) - 1, Env: q.Env})
+			}
+		}
+		sc.Tasks = append(sc.Tasks, ops)
+	}
+	sc.Sim = genSimConfig(r)
+	return sc
+}
+
 func genScenario(r *rng, cold bool) *Scenario {
 	if !cold && r.chance(0.08) {
 		return genLazyScenario(r)
+	}
+	if r.chance(0.07) {
+		return genRegisterScenario(r, cold)
 	}
 	if r.chance(0.12) {
 		return genTimeScenario(r, cold)
